@@ -211,6 +211,16 @@ impl Expr {
         self.for_type(flags).map(|_| self)
     }
 
+    /// The name of the variable an index / field path is rooted at, if that variable is const.
+    fn root_ident_if_const(&self) -> Option<&str> {
+        match self {
+            Expr::Value(Value::Ident(ident)) if ident.is_const() => Some(ident.name()),
+            Expr::Index { lhs_raw, .. } => lhs_raw.root_ident_if_const(),
+            Expr::DotLookup { lhs, .. } => lhs.root_ident_if_const(),
+            _ => None,
+        }
+    }
+
     pub(crate) fn parse(input: Node) -> Result<Expr, Vec<anyhow::Error>> {
         let children_as_pairs = input.children().into_pairs();
         parse_expr(children_as_pairs, input.user_data().clone())
@@ -234,8 +244,18 @@ impl Expr {
                             }
                             Cow::Owned(lhs.for_type(flags)?)
                         }
-                        index @ Expr::Index { .. } => Cow::Owned(index.for_type(flags)?),
-                        Expr::DotLookup { expected_type, .. } => Cow::Borrowed(expected_type),
+                        index @ Expr::Index { .. } => {
+                            if let Some(root) = lhs.root_ident_if_const() {
+                                bail!("cannot reassign using {op} through {root}, which is const")
+                            }
+                            Cow::Owned(index.for_type(flags)?)
+                        }
+                        Expr::DotLookup { expected_type, .. } => {
+                            if let Some(root) = lhs.root_ident_if_const() {
+                                bail!("cannot reassign using {op} through {root}, which is const")
+                            }
+                            Cow::Borrowed(expected_type)
+                        }
                         _ => bail!("invalid left operand for {op} (cannot apply to {})", lhs.for_type(flags)?),
                     }
                 } else {
